@@ -1,19 +1,1446 @@
-fn main() {
-    let a: Vec<String> = std::env::args().collect();
-    let s = &a[1];
-    let mut tk = 0;
-    let r = std::panic::catch_unwind(|| gluon_parser::verif::tokens(s));
+//! C09 — the front end is total.
+//!
+//! Parent (`c09 --tier .. --seed .. --out DIR`):
+//!   1. generates inputs (corpus, UTF-8 byte soups, token soups, grammar-aware mutants of real
+//!      programs), at most 4 KiB each;
+//!   2. tie C: runs the real tokenizer (`gluon_parser::verif::tokens`) on every input in a CHILD
+//!      process (8 MiB stack, 10 s watchdog per input, the dying input is attributed exactly) and
+//!      writes one canonical line per input to impl_out.txt, in the format of coq/extract/c09;
+//!   3. totality monitor: every input through `parse_partial_expr` and `typecheck_str` (prelude off,
+//!      and on for a subset) in a child under catch_unwind; every reported error must have a span
+//!      inside its file on character boundaries and `emit_string()` must succeed;
+//!   4. nesting sweep: parenthesis / let / lambda / record / ... nesting in a child.
+//! Child (`c09 child <lex|mon> FILE`, `c09 child nest KIND DEPTH`): see `child_main`.
+//!
+//! Files in --out: model_in.txt impl_out.txt cases.txt stats.json monitor.json
+use gluon::ThreadExt;
+use gluon::base::error::InFile;
+use gluon::base::pos::{BytePos, Spanned};
+use gvh::out::{Args, Hist, fnv};
+use gvh::rng::Rng;
+use std::collections::{BTreeMap, BTreeSet};
+use std::io::{BufRead, Write};
+use std::panic::{AssertUnwindSafe, catch_unwind};
+use std::sync::Mutex;
+use std::time::{Duration, Instant};
+
+const MAX_LEN: usize = 4096;
+const STACK: usize = 8 * 1024 * 1024;
+const WATCHDOG: Duration = Duration::from_secs(10);
+
+// ------------------------------------------------------------------------------------------
+// canonical rendering of the implementation's tokens (format of coq/extract/c09/driver.ml)
+// ------------------------------------------------------------------------------------------
+
+fn hex(b: &[u8]) -> String {
+    let mut s = String::with_capacity(b.len() * 2);
+    for x in b {
+        s.push_str(&format!("{:02x}", x));
+    }
+    s
+}
+
+fn unhex(s: &str) -> Vec<u8> {
+    (0..s.len() / 2).map(|i| u8::from_str_radix(&s[2 * i..2 * i + 2], 16).unwrap()).collect()
+}
+
+/// Reads one (possibly escaped) character of a Rust `{:?}` rendering; returns it and the rest.
+fn debug_char(s: &str) -> Option<(char, &str)> {
+    let mut it = s.chars();
+    let c = it.next()?;
+    if c != '\\' {
+        return Some((c, it.as_str()));
+    }
+    let e = it.next()?;
+    let rest = it.as_str();
+    Some(match e {
+        'n' => ('\n', rest),
+        'r' => ('\r', rest),
+        't' => ('\t', rest),
+        '0' => ('\0', rest),
+        '\\' => ('\\', rest),
+        '\'' => ('\'', rest),
+        '"' => ('"', rest),
+        'u' => {
+            let close = rest.find('}')?;
+            let cp = u32::from_str_radix(&rest[1..close], 16).ok()?;
+            (char::from_u32(cp)?, &rest[close + 1..])
+        }
+        _ => return None,
+    })
+}
+
+/// `"...."` (Debug of a str) -> the string
+fn debug_str(s: &str) -> Option<String> {
+    let s = s.strip_prefix('"')?.strip_suffix('"')?;
+    let mut out = String::new();
+    let mut rest = s;
+    while !rest.is_empty() {
+        let (c, r) = debug_char(rest)?;
+        out.push(c);
+        rest = r;
+    }
+    Some(out)
+}
+
+/// `'x'` (Debug of a char) -> code point
+fn debug_chr(s: &str) -> Option<u32> {
+    let s = s.strip_prefix('\'')?.strip_suffix('\'')?;
+    let (c, rest) = debug_char(s)?;
+    if rest.is_empty() { Some(c as u32) } else { None }
+}
+
+fn inner<'a>(s: &'a str, prefix: &str, suffix: &str) -> Option<&'a str> {
+    s.strip_prefix(prefix)?.strip_suffix(suffix)
+}
+
+fn canon_token(d: &str) -> String {
+    let text = |tag: &str, body: Option<&str>| -> String {
+        match body.and_then(debug_str) {
+            Some(t) => format!("{}:{}", tag, hex(t.as_bytes())),
+            None => format!("?{}", d),
+        }
+    };
+    if d.starts_with("Identifier(") {
+        text("Ident", inner(d, "Identifier(", ")"))
+    } else if d.starts_with("Operator(") {
+        text("Op", inner(d, "Operator(", ")"))
+    } else if d.starts_with("ShebangLine(") {
+        text("Shebang", inner(d, "ShebangLine(", ")"))
+    } else if d.starts_with("StringLiteral(Escaped(") {
+        text("Str", inner(d, "StringLiteral(Escaped(", "))"))
+    } else if d.starts_with("StringLiteral(Raw(") {
+        text("RawStr", inner(d, "StringLiteral(Raw(", "))"))
+    } else if d.starts_with("CharLiteral(") {
+        match inner(d, "CharLiteral(", ")").and_then(debug_chr) {
+            Some(c) => format!("Char:{}", c),
+            None => format!("?{}", d),
+        }
+    } else if d.starts_with("IntLiteral(") {
+        format!("Int:{}", inner(d, "IntLiteral(", ")").unwrap_or("?"))
+    } else if d.starts_with("ByteLiteral(") {
+        format!("Byte:{}", inner(d, "ByteLiteral(", ")").unwrap_or("?"))
+    } else if d.starts_with("FloatLiteral(") {
+        "Float".to_string()
+    } else if d.starts_with("DocComment(") {
+        let block = d.contains("typ: Block");
+        let body = d.find("content: ").map(|i| &d[i + 9..]).and_then(|r| r.strip_suffix(" })"));
+        text(if block { "DocB" } else { "DocL" }, body)
+    } else {
+        d.to_string()
+    }
+}
+
+fn canon_error(d: &str) -> String {
+    for tag in ["UnexpectedChar", "UnexpectedEscapeCode"] {
+        if let Some(body) = d.strip_prefix(tag).and_then(|r| r.strip_prefix('(')).and_then(|r| r.strip_suffix(')')) {
+            return match debug_chr(body) {
+                Some(c) => format!("{}:{}", tag, c),
+                None => format!("?{}", d),
+            };
+        }
+    }
+    d.to_string()
+}
+
+/// `StringLiteral::unescape` as the grammar applies it to an escaped string token: the token's own
+/// source text is parsed as an expression and the resulting string literal read back.
+fn unescape_via_parser(token_src: &str) -> String {
+    use gluon::base::ast::{Expr, Literal};
+    let r = catch_unwind(AssertUnwindSafe(|| {
+        let mut symbols = gluon::base::symbol::Symbols::new();
+        let mut module = gluon::base::symbol::SymbolModule::new("c09u".into(), &mut symbols);
+        let tc = gluon::base::types::TypeCache::default();
+        let expr = match gluon_parser::parse_partial_root_expr(&mut module, &tc, token_src) {
+            Ok(e) => Some(e),
+            Err((e, _)) => e,
+        };
+        match expr {
+            Some(e) => match &e.expr().value {
+                Expr::Literal(Literal::String(s)) => format!("ok:{}", hex(s.as_bytes())),
+                _ => "not-a-string-literal".to_string(),
+            },
+            None => "no-expr".to_string(),
+        }
+    }));
     match r {
-        Ok((toks, errs)) => {
-            for t in toks.iter().take(40) {
-                println!("{:?}", t);
-                tk += 1;
-            }
-            println!("n={} shown={}", toks.len(), tk);
-            for e in errs {
-                println!("side {:?}", e);
+        Ok(s) => s,
+        Err(_) => {
+            let (loc, msg) = take_panic();
+            if msg.contains("Invalid escape") {
+                "panic:invalid_escape".into()
+            } else if msg.contains("index out of bounds") && loc.contains("token.rs") {
+                "panic:index".into()
+            } else {
+                format!("panic:other:{}", loc)
             }
         }
-        Err(_) => println!("PANIC"),
     }
+}
+
+fn lex_impl_line(src: &str) -> String {
+    let (items, side) = gluon_parser::verif::tokens(src);
+    let mut out = String::from("ok");
+    let mut strings = Vec::new();
+    for it in items {
+        match it {
+            Ok((a, b, d)) => {
+                if d.starts_with("StringLiteral(Escaped(") {
+                    strings.push((a as usize - 1, b as usize - 1));
+                }
+                out.push_str(&format!(" T:{}:{}:{}", a - 1, b - 1, canon_token(&d)))
+            }
+            Err((a, b, d)) => out.push_str(&format!(" E:{}:{}:{}", a - 1, b - 1, canon_error(&d))),
+        }
+    }
+    out.push_str(" ##");
+    for (a, b, d) in side {
+        out.push_str(&format!(" E:{}:{}:{}", a - 1, b - 1, canon_error(&d)));
+    }
+    out.push_str(" ##");
+    let mut seen = BTreeMap::new();
+    for (a, b) in strings {
+        let text = &src[a..b];
+        let r = seen.entry(text).or_insert_with(|| unescape_via_parser(text)).clone();
+        out.push_str(&format!(" U:{}:{}", a, r));
+    }
+    out
+}
+
+// ------------------------------------------------------------------------------------------
+// panic capture
+// ------------------------------------------------------------------------------------------
+
+static LAST_PANIC: Mutex<Option<(String, String)>> = Mutex::new(None);
+
+fn install_hook() {
+    std::panic::set_hook(Box::new(|info| {
+        let loc = info
+            .location()
+            .map(|l| format!("{}:{}", l.file().trim_start_matches("/repo/"), l.line()))
+            .unwrap_or_else(|| "?".into());
+        let msg = if let Some(s) = info.payload().downcast_ref::<&str>() {
+            s.to_string()
+        } else if let Some(s) = info.payload().downcast_ref::<String>() {
+            s.clone()
+        } else {
+            "?".into()
+        };
+        if let Ok(mut g) = LAST_PANIC.lock() {
+            // keep the FIRST panic (later ones are usually poisoned locks)
+            if g.is_none() {
+                *g = Some((loc, msg));
+            }
+        }
+    }));
+}
+
+fn take_panic() -> (String, String) {
+    LAST_PANIC.lock().ok().and_then(|mut g| g.take()).unwrap_or_else(|| ("?".into(), "?".into()))
+}
+
+fn one_line(s: &str, max: usize) -> String {
+    let t: String = s.chars().map(|c| if c == '\n' || c == '\r' || c == '\t' { ' ' } else { c }).take(max).collect();
+    t
+}
+
+/// Panic site class in the vocabulary of the model (`Panic PRestoreChar | PSlice`).
+fn lexer_panic_site(loc: &str, msg: &str) -> String {
+    if loc.contains("str_suffix.rs") && msg.starts_with("UTF-8 string") {
+        "restore_char".into()
+    } else if msg.contains("is not a char boundary") || msg.contains("when slicing") || msg.contains("out of bounds of") || msg.contains("out of range") {
+        "slice".into()
+    } else {
+        format!("other:{}", loc)
+    }
+}
+
+// ------------------------------------------------------------------------------------------
+// monitor: parse_partial_expr / typecheck_str, spans and rendering of every reported error
+// ------------------------------------------------------------------------------------------
+
+fn check_infile<E: std::fmt::Display>(stage: &str, inf: &InFile<E>, out: &mut Vec<String>, nerr: &mut usize) {
+    let errors: &gluon::base::error::Errors<Spanned<E, BytePos>> = inf.errors();
+    for e in errors.iter() {
+        *nerr += 1;
+        let (s, t) = (e.span.start(), e.span.end());
+        match inf.source().get(s) {
+            None => out.push(format!("error-span-outside-any-file|{} span {}..{}", stage, s.to_usize(), t.to_usize())),
+            Some(file) => {
+                let base = file.span().start().to_usize();
+                let src = file.source();
+                let (a, b) = (s.to_usize().wrapping_sub(base), t.to_usize().wrapping_sub(base));
+                if a > b || b > src.len() {
+                    out.push(format!("error-span-out-of-bounds|{} file {} span {}..{} len {}", stage, file.name(), a, b, src.len()));
+                } else if !src.is_char_boundary(a) || !src.is_char_boundary(b) {
+                    out.push(format!("error-span-not-on-char-boundary|{} file {} span {}..{}", stage, file.name(), a, b));
+                }
+            }
+        }
+    }
+}
+
+fn walk_error(stage: &str, e: &gluon::Error, out: &mut Vec<String>, nerr: &mut usize) {
+    match e {
+        gluon::Error::Parse(inf) => check_infile(stage, inf, out, nerr),
+        gluon::Error::Typecheck(inf) => check_infile(stage, inf, out, nerr),
+        gluon::Error::Macro(inf) => check_infile(stage, inf, out, nerr),
+        gluon::Error::Multiple(es) => {
+            for e in es.iter() {
+                walk_error(stage, e, out, nerr)
+            }
+        }
+        _ => *nerr += 1,
+    }
+}
+
+fn new_vm(prelude: bool) -> gluon::RootedThread {
+    let vm = gluon::VmBuilder::new().build();
+    vm.get_database_mut().implicit_prelude(prelude);
+    vm
+}
+
+/// Tells the parent which stage is about to run, so that a death of the process is attributed.
+fn stage_marker(stage: &str) {
+    let out = std::io::stdout();
+    let mut o = out.lock();
+    let _ = writeln!(o, "@{}", stage);
+    let _ = o.flush();
+}
+
+struct Monitor {
+    vm: gluon::RootedThread,
+    vm_prelude: Option<gluon::RootedThread>,
+    uses: usize,
+}
+
+impl Monitor {
+    fn new() -> Monitor {
+        Monitor { vm: new_vm(false), vm_prelude: None, uses: 0 }
+    }
+
+    /// Returns "outcome-summary" and the list of violations ("key|detail").
+    fn run(&mut self, src: &str, with_prelude: bool) -> (String, Vec<String>) {
+        let mut viol = Vec::new();
+        let mut summary = String::new();
+        self.uses += 1;
+        if self.uses % 1500 == 0 {
+            self.vm = new_vm(false);
+            self.vm_prelude = None;
+        }
+        // --- parse_partial_expr
+        stage_marker("parse");
+        let mut nerr = 0usize;
+        let vm = self.vm.clone();
+        let r = catch_unwind(AssertUnwindSafe(|| {
+            let tc = vm.global_env().type_cache().clone();
+            let mut v = Vec::new();
+            let mut n = 0usize;
+            let res = match vm.parse_partial_expr(&tc, "c09p", src) {
+                Ok(_) => "ok",
+                Err(salvage) => {
+                    check_infile("parse", &salvage.error, &mut v, &mut n);
+                    let rendered = salvage.error.emit_string();
+                    if let Err(e) = rendered {
+                        v.push(format!("emit-string-failed|parse: {}", one_line(&e.to_string(), 200)));
+                    }
+                    "err"
+                }
+            };
+            (res, v, n)
+        }));
+        match r {
+            Ok((res, v, n)) => {
+                viol.extend(v);
+                nerr += n;
+                summary.push_str(&format!("parse:{}", res));
+            }
+            Err(_) => {
+                let (loc, msg) = take_panic();
+                viol.push(format!("parse-panic:{}|{}", loc, one_line(&msg, 200)));
+                summary.push_str("parse:panic");
+                self.vm = new_vm(false);
+            }
+        }
+        // --- typecheck_str, prelude off / on
+        let mut modes = vec![false];
+        if with_prelude {
+            modes.push(true);
+        }
+        for prelude in modes {
+            let vm = if prelude {
+                if self.vm_prelude.is_none() {
+                    self.vm_prelude = Some(new_vm(true));
+                }
+                self.vm_prelude.clone().unwrap()
+            } else {
+                self.vm.clone()
+            };
+            let stage = if prelude { "typecheck+prelude" } else { "typecheck" };
+            stage_marker(stage);
+            let r = catch_unwind(AssertUnwindSafe(|| {
+                let mut v = Vec::new();
+                let mut n = 0usize;
+                let res = match vm.typecheck_str("c09t", src, None) {
+                    Ok(_) => "ok",
+                    Err(e) => {
+                        walk_error(stage, &e, &mut v, &mut n);
+                        match catch_unwind(AssertUnwindSafe(|| e.emit_string())) {
+                            Ok(Ok(_)) => {}
+                            Ok(Err(err)) => v.push(format!("emit-string-failed|{}: {}", stage, one_line(&err.to_string(), 200))),
+                            Err(_) => {
+                                let (loc, msg) = take_panic();
+                                v.push(format!("emit-string-panic:{}|{}: {}", loc, stage, one_line(&msg, 200)));
+                            }
+                        }
+                        "err"
+                    }
+                };
+                (res, v, n)
+            }));
+            match r {
+                Ok((res, v, n)) => {
+                    viol.extend(v);
+                    nerr += n;
+                    summary.push_str(&format!(" {}:{}", stage, res));
+                }
+                Err(_) => {
+                    let (loc, msg) = take_panic();
+                    viol.push(format!("typecheck-panic:{}|{}: {}", loc, stage, one_line(&msg, 200)));
+                    summary.push_str(&format!(" {}:panic", stage));
+                    // locks may be poisoned: start over with fresh VMs
+                    self.vm = new_vm(false);
+                    self.vm_prelude = None;
+                }
+            }
+        }
+        summary.push_str(&format!(" errors:{}", nerr));
+        (summary, viol)
+    }
+}
+
+// ------------------------------------------------------------------------------------------
+// child side
+// ------------------------------------------------------------------------------------------
+
+fn nest_source(kind: &str, d: usize) -> String {
+    let mut s = String::new();
+    match kind {
+        "paren" => {
+            s.push_str(&"(".repeat(d));
+            s.push('1');
+            s.push_str(&")".repeat(d));
+        }
+        "let-body" => {
+            // let a = 1 in let a = a in ... a
+            s.push_str("let a = 1\n");
+            for _ in 1..d {
+                s.push_str("let a = a\n");
+            }
+            s.push('a');
+        }
+        "let-value" => {
+            for _ in 0..d {
+                s.push_str("let a = ");
+            }
+            s.push('1');
+            for _ in 0..d {
+                s.push_str(" in a");
+            }
+        }
+        "lambda" => {
+            for _ in 0..d {
+                s.push_str("\\x -> ");
+            }
+            s.push('x');
+        }
+        "record" => {
+            for _ in 0..d {
+                s.push_str("{ a = ");
+            }
+            s.push('1');
+            s.push_str(&" }".repeat(d));
+        }
+        "array" => {
+            s.push_str(&"[".repeat(d));
+            s.push_str(&"]".repeat(d));
+        }
+        "if" => {
+            s.push_str("let b = 1 #Int== 1\n");
+            for _ in 0..d {
+                s.push_str("if b then ");
+            }
+            s.push('1');
+            for _ in 0..d {
+                s.push_str(" else 0");
+            }
+        }
+        "app" => {
+            // f (f (f ... 1))
+            s.push_str("let f x = x\n");
+            for _ in 0..d {
+                s.push_str("f (");
+            }
+            s.push('1');
+            s.push_str(&")".repeat(d));
+        }
+        "infix" => {
+            s.push('1');
+            for _ in 0..d {
+                s.push_str(" #Int+ 1");
+            }
+        }
+        "type" => {
+            // let x : (((Int))) = 1 in x
+            s.push_str("let x : ");
+            s.push_str(&"(".repeat(d));
+            s.push_str("Int");
+            s.push_str(&")".repeat(d));
+            s.push_str(" = 1\nx");
+        }
+        "block-comment" => {
+            s.push_str(&"/* ".repeat(d));
+            s.push_str(&"*/ ".repeat(d));
+            s.push('1');
+        }
+        _ => panic!("unknown nest kind {}", kind),
+    }
+    s
+}
+
+const NEST_KINDS: &[&str] = &["paren", "let-body", "let-value", "lambda", "record", "array", "if", "app", "infix", "type", "block-comment"];
+
+fn child_main(args: &[String]) {
+    install_hook();
+    let mode = args[0].clone();
+    let rest: Vec<String> = args[1..].to_vec();
+    let h = std::thread::Builder::new()
+        .stack_size(STACK)
+        .spawn(move || match mode.as_str() {
+            "lex" => child_lex(&rest[0]),
+            "mon" => child_mon(&rest[0]),
+            "nest" => child_nest(&rest[0], &rest[1]),
+            _ => panic!("unknown child mode"),
+        })
+        .unwrap();
+    let ok = h.join().is_ok();
+    std::process::exit(if ok { 0 } else { 3 });
+}
+
+fn read_cases(path: &str) -> Vec<(usize, bool, String)> {
+    // lines: <index> <flags> <hex>
+    let f = std::io::BufReader::new(std::fs::File::open(path).expect("case file"));
+    f.lines()
+        .map(|l| {
+            let l = l.unwrap();
+            let mut it = l.split(' ');
+            let i: usize = it.next().unwrap().parse().unwrap();
+            let fl = it.next().unwrap() == "1";
+            let h = it.next().unwrap_or("");
+            (i, fl, String::from_utf8(unhex(h)).expect("utf8 case"))
+        })
+        .collect()
+}
+
+fn child_lex(path: &str) {
+    let out = std::io::stdout();
+    for (i, _, src) in read_cases(path) {
+        let line = match catch_unwind(AssertUnwindSafe(|| lex_impl_line(&src))) {
+            Ok(l) => l,
+            Err(_) => {
+                let (loc, msg) = take_panic();
+                format!("panic:{}", lexer_panic_site(&loc, &msg))
+            }
+        };
+        let mut o = out.lock();
+        writeln!(o, "{}\t{}", i, line).unwrap();
+        o.flush().unwrap();
+    }
+}
+
+fn child_mon(path: &str) {
+    let out = std::io::stdout();
+    let mut m = Monitor::new();
+    {
+        let mut o = out.lock();
+        writeln!(o, "ready").unwrap();
+        o.flush().unwrap();
+    }
+    for (i, with_prelude, src) in read_cases(path) {
+        let (summary, viol) = m.run(&src, with_prelude);
+        let mut o = out.lock();
+        writeln!(o, "{}\t{}\t{}", i, summary, viol.join("\x1f")).unwrap();
+        o.flush().unwrap();
+    }
+}
+
+fn child_nest(kind: &str, depths: &str) {
+    let vm = new_vm(false);
+    for d in depths.split(',') {
+        let depth: usize = d.parse().unwrap();
+        let src = nest_source(kind, depth);
+        println!("@{}", depth);
+        let r = catch_unwind(AssertUnwindSafe(|| match vm.typecheck_str("nest", &src, None) {
+            Ok(_) => "ok".to_string(),
+            Err(e) => {
+                let _ = e.emit_string();
+                format!("rejected {}", one_line(&e.to_string(), 100))
+            }
+        }));
+        match r {
+            Ok(s) => println!("D {} done {}", depth, s),
+            Err(_) => {
+                let (loc, msg) = take_panic();
+                println!("D {} panic {} {}", depth, loc, one_line(&msg, 100));
+                return;
+            }
+        }
+    }
+}
+
+// ------------------------------------------------------------------------------------------
+// parent side: isolated runner
+// ------------------------------------------------------------------------------------------
+
+fn describe_exit(st: std::process::ExitStatus) -> String {
+    use std::os::unix::process::ExitStatusExt;
+    match (st.code(), st.signal()) {
+        (_, Some(sig)) => format!("abort:signal{}", sig),
+        (Some(c), _) => format!("abort:exit{}", c),
+        _ => "abort:?".into(),
+    }
+}
+
+fn stderr_tail(path: &std::path::Path) -> String {
+    let t = std::fs::read(path).unwrap_or_default();
+    let t = String::from_utf8_lossy(&t).into_owned();
+    let n = t.len().saturating_sub(2000);
+    let mut k = n;
+    while !t.is_char_boundary(k) {
+        k += 1;
+    }
+    t[k..].to_string()
+}
+
+fn death_reason(st: std::process::ExitStatus, stderr: &std::path::Path) -> String {
+    let tail = stderr_tail(stderr);
+    if tail.contains("has overflowed its stack") {
+        "stack-overflow".into()
+    } else if tail.contains("panic in a function that cannot unwind") || tail.contains("non-unwinding panic") {
+        "abort:non-unwinding-panic".into()
+    } else {
+        describe_exit(st)
+    }
+}
+
+/// Runs `cases` (index, flag, text) through child mode `mode`; returns index -> result line (without the index).
+/// A case on which the child dies or exceeds the watchdog gets `<reason>@<stage>` (reason = stack-overflow,
+/// abort:.., hang) and the child is restarted on the remaining cases.
+fn run_isolated(mode: &str, tag: &str, cases: &[(usize, bool, &str)], dir: &std::path::Path, deaths: &mut Vec<String>) -> BTreeMap<usize, String> {
+    let mut results = BTreeMap::new();
+    let mut from = 0usize;
+    let mut round = 0;
+    while from < cases.len() {
+        round += 1;
+        let path = dir.join(format!("{}-{}-in-{}.txt", mode, tag, round));
+        let errpath = dir.join(format!("{}-{}-stderr.txt", mode, tag));
+        {
+            let mut f = std::io::BufWriter::new(std::fs::File::create(&path).unwrap());
+            for (i, fl, s) in &cases[from..] {
+                writeln!(f, "{} {} {}", i, if *fl { 1 } else { 0 }, hex(s.as_bytes())).unwrap();
+            }
+        }
+        let mut child = std::process::Command::new(std::env::current_exe().unwrap())
+            .arg("child")
+            .arg(mode)
+            .arg(&path)
+            .stdout(std::process::Stdio::piped())
+            .stderr(std::fs::File::create(&errpath).map(std::process::Stdio::from).unwrap_or_else(|_| std::process::Stdio::null()))
+            .spawn()
+            .expect("spawn child");
+        let stdout = child.stdout.take().unwrap();
+        let (tx, rx) = std::sync::mpsc::channel::<String>();
+        let reader = std::thread::spawn(move || {
+            for l in std::io::BufReader::new(stdout).lines() {
+                match l {
+                    Ok(l) => {
+                        if tx.send(l).is_err() {
+                            break;
+                        }
+                    }
+                    Err(_) => break,
+                }
+            }
+        });
+        let mut k = from;
+        let mut first = true;
+        let mut stage = String::from("start");
+        let mut died: Option<String> = None;
+        let mut deadline = Instant::now() + WATCHDOG * 6; // the first answer of a child includes process and VM start-up
+        while k < cases.len() {
+            let now = Instant::now();
+            let left = if deadline > now { deadline - now } else { Duration::from_millis(0) };
+            match rx.recv_timeout(left) {
+                Ok(l) => {
+                    if l == "ready" {
+                        first = false;
+                        deadline = Instant::now() + WATCHDOG;
+                        continue;
+                    }
+                    if let Some(st) = l.strip_prefix('@') {
+                        stage = st.to_string();
+                        continue;
+                    }
+                    let (idx, body) = l.split_once('\t').unwrap_or(("?", ""));
+                    if idx.parse::<usize>().ok() == Some(cases[k].0) {
+                        results.insert(cases[k].0, body.to_string());
+                        k += 1;
+                        stage = "start".into();
+                        first = false;
+                        deadline = Instant::now() + WATCHDOG;
+                    }
+                }
+                Err(std::sync::mpsc::RecvTimeoutError::Timeout) => {
+                    let _ = child.kill();
+                    let _ = child.wait();
+                    died = Some(if first { "hang-at-startup".into() } else { "hang".into() });
+                    break;
+                }
+                Err(std::sync::mpsc::RecvTimeoutError::Disconnected) => {
+                    let st = child.wait().expect("wait");
+                    died = Some(death_reason(st, &errpath));
+                    break;
+                }
+            }
+        }
+        if k >= cases.len() {
+            let _ = child.wait();
+        }
+        let _ = reader.join();
+        let _ = std::fs::remove_file(&path);
+        if let Some(why) = died {
+            if k < cases.len() {
+                let why = format!("{}@{}", why, stage);
+                deaths.push(format!("{} case {} {}", mode, cases[k].0, why));
+                results.insert(cases[k].0, why);
+                k += 1;
+            }
+        }
+        let _ = std::fs::remove_file(&errpath);
+        from = k;
+    }
+    results
+}
+
+/// Sharded version: `shards` children in parallel.
+fn run_isolated_par(mode: &str, cases: &[(usize, bool, &str)], dir: &std::path::Path, deaths: &mut Vec<String>, shards: usize) -> BTreeMap<usize, String> {
+    let n = cases.len();
+    let per = (n + shards - 1) / shards.max(1);
+    let mut all = BTreeMap::new();
+    if n == 0 {
+        return all;
+    }
+    std::thread::scope(|sc| {
+        let mut hs = Vec::new();
+        for (k, chunk) in cases.chunks(per.max(1)).enumerate() {
+            let tag = format!("s{}", k);
+            hs.push(sc.spawn(move || {
+                let mut d = Vec::new();
+                let r = run_isolated(mode, &tag, chunk, dir, &mut d);
+                (r, d)
+            }));
+        }
+        for h in hs {
+            let (r, d) = h.join().expect("shard");
+            all.extend(r);
+            deaths.extend(d);
+        }
+    });
+    all
+}
+
+/// Nesting sweep of one kind in one child: depth -> result ("done ok", "done rejected ..", "panic ..",
+/// "stack-overflow", "abort:..", "hang").  Stops at the first depth that kills the child.
+fn run_nest(kind: &str, depths: &[usize], dir: &std::path::Path) -> Vec<(usize, String)> {
+    let errpath = dir.join(format!("nest-{}-stderr.txt", kind));
+    let list: Vec<String> = depths.iter().map(|d| d.to_string()).collect();
+    let mut child = std::process::Command::new(std::env::current_exe().unwrap())
+        .args(["child", "nest", kind, &list.join(",")])
+        .stdout(std::process::Stdio::piped())
+        .stderr(std::fs::File::create(&errpath).map(std::process::Stdio::from).unwrap_or_else(|_| std::process::Stdio::null()))
+        .spawn()
+        .expect("spawn child");
+    let stdout = child.stdout.take().unwrap();
+    let (tx, rx) = std::sync::mpsc::channel::<String>();
+    let reader = std::thread::spawn(move || {
+        for l in std::io::BufReader::new(stdout).lines().map_while(|l| l.ok()) {
+            if tx.send(l).is_err() {
+                break;
+            }
+        }
+    });
+    let mut out = Vec::new();
+    let mut current: Option<usize> = None;
+    loop {
+        match rx.recv_timeout(WATCHDOG * 3) {
+            Ok(l) => {
+                if let Some(d) = l.strip_prefix('@') {
+                    current = d.parse().ok();
+                } else if let Some(r) = l.strip_prefix("D ") {
+                    let (d, res) = r.split_once(' ').unwrap_or(("0", ""));
+                    out.push((d.parse().unwrap_or(0), res.to_string()));
+                    current = None;
+                }
+            }
+            Err(std::sync::mpsc::RecvTimeoutError::Timeout) => {
+                let _ = child.kill();
+                let _ = child.wait();
+                if let Some(d) = current {
+                    out.push((d, "hang".into()));
+                }
+                break;
+            }
+            Err(std::sync::mpsc::RecvTimeoutError::Disconnected) => {
+                let st = child.wait().expect("wait");
+                if let Some(d) = current {
+                    out.push((d, death_reason(st, &errpath)));
+                }
+                break;
+            }
+        }
+    }
+    let _ = reader.join();
+    let _ = std::fs::remove_file(&errpath);
+    out
+}
+
+// ------------------------------------------------------------------------------------------
+// input generation
+// ------------------------------------------------------------------------------------------
+
+fn truncate_to(s: &str, max: usize) -> &str {
+    if s.len() <= max {
+        return s;
+    }
+    let mut e = max;
+    while !s.is_char_boundary(e) {
+        e -= 1;
+    }
+    &s[..e]
+}
+
+const INTERESTING_ASCII: &[u8] = b"\"\"''\\\\##rr//**!![[]](){}..,,--xxbb00119 \n\n\t\r@:=|?_a~<>+eF";
+const NON_ASCII: &[char] = &[
+    '\u{e9}', '\u{a0}', '\u{85}', '\u{80}', '\u{ff}', '\u{3bb}', '\u{20ac}', '\u{2713}', '\u{2028}', '\u{3000}', '\u{1680}', '\u{fffd}',
+    '\u{1f600}', '\u{10ffff}', '\u{10000}', '\u{7ff}', '\u{800}', '\u{d7ff}', '\u{e000}', '\u{feff}', '\u{301}',
+];
+
+fn rand_char(rng: &mut Rng, ascii_only: bool) -> char {
+    let k = rng.below(100);
+    if ascii_only || k < 70 {
+        if rng.chance(1, 2) {
+            *rng.pick(INTERESTING_ASCII) as char
+        } else {
+            rng.below(128) as u8 as char
+        }
+    } else if k < 90 {
+        *rng.pick(NON_ASCII)
+    } else {
+        loop {
+            let cp = match rng.below(3) {
+                0 => 0x80 + rng.below(0x780),
+                1 => 0x800 + rng.below(0xF800),
+                _ => 0x10000 + rng.below(0x100000),
+            } as u32;
+            if let Some(c) = char::from_u32(cp) {
+                return c;
+            }
+        }
+    }
+}
+
+/// Random bytes forced to valid UTF-8.
+fn gen_bytes(rng: &mut Rng) -> (String, &'static str) {
+    let len = match rng.below(10) {
+        0..=3 => 1 + rng.below(12) as usize,
+        4..=7 => 1 + rng.below(200) as usize,
+        _ => 1 + rng.below(MAX_LEN as u64) as usize,
+    };
+    match rng.below(4) {
+        0 => {
+            // uniformly random bytes, lossily decoded (invalid sequences become U+FFFD)
+            let b: Vec<u8> = (0..len).map(|_| rng.below(256) as u8).collect();
+            let s = String::from_utf8_lossy(&b).into_owned();
+            (truncate_to(&s, MAX_LEN).to_string(), "bytes:lossy")
+        }
+        1 => {
+            let mut s = String::new();
+            while s.len() < len {
+                s.push(rand_char(rng, false));
+            }
+            (truncate_to(&s, MAX_LEN).to_string(), "bytes:chars")
+        }
+        _ => {
+            let mut s = String::new();
+            while s.len() < len {
+                s.push(rand_char(rng, true));
+            }
+            (truncate_to(&s, MAX_LEN).to_string(), "bytes:ascii")
+        }
+    }
+}
+
+const SOUP: &[&str] = &[
+    "let", "in", "if", "then", "else", "match", "with", "type", "rec", "do", "seq", "forall", "x", "y", "f", "foo'", "Bar", "_", "a_1", "import!", "std.int",
+    "Some", "None", "True", "False", "Int", "String", "=", "->", "|", ":", ",", ".", "..", "@", "\\", "?", "(", ")", "{", "}", "[", "]", "#[", "#[derive(Eq)]", "#!",
+    "+", "-", "*", "/", "==", "<|", "|>", ">>=", "<>", "&&", "||", "#Int+", "#Float*", "#Byte==", "#", "$", "-1", "0", "1", "42", "007", "9223372036854775807",
+    "9223372036854775808", "-9223372036854775808", "-9223372036854775809", "0x", "0xff", "0xFFFFFFFFFFFFFFFF", "0x7fffffffffffffff", "-0x8000000000000000", "-0x8000000000000001",
+    "-0x1", "1x2", "0xg", "12b", "255b", "256b", "-1b", "0b", "1.5", "1.", "2.5e3", "1.2.3", "3f", "1e5", "'a'", "'\\n'", "'\\''", "''", "'ab'", "'\\q'", "'", "'a",
+    "\"\"", "\"abc\"", "\"a\\\"b\"", "\"a\\nb\"", "\"\\q\"", "\"unterminated", "\"\\", "r\"raw\"", "r#\"ra\"w\"#", "r##\"x\"#\"##", "r#\"unterminated\"", "r#x", "r##", "r",
+    "// comment\n", "/// doc\n", "///doc2\n", "//// four\n", "//", "/* block */", "/** doc block */", "/**/", "/***/", "/*", "/* unterminated", "/** * **/", "*/",
+    "\n", "\n\n", "\r\n", "\t", ";", "~", "^", "%", "&", "!", "<", ">", "\u{b}", "\u{c}",
+];
+const SOUP_NON_ASCII_SAFE: &[&str] = &["\"h\u{e9}llo\"", "// caf\u{e9}\n", "/* \u{2713} */", "/// \u{1f600} doc\n", "r\"\u{20ac}\"", "/** \u{3000}pad\u{3000} */", "\"\u{a0}\""];
+const SOUP_NON_ASCII_BAD: &[&str] = &["\u{e9}", "\u{20ac}", "\u{2713}", "\u{a0}", "\u{85}", "'\u{e9}'", "'\u{1f600}'", "\"\\\u{e9}\"", "\"\\\u{1f600}\"", "'a\u{e9}", "\u{3bb}x", "x\u{301}", "\u{1f600}"];
+
+/// Random token soup with random indentation; `bad` allows non-ASCII outside of strings/comments.
+fn gen_soup(rng: &mut Rng, bad: bool) -> String {
+    let big = rng.chance(1, 4);
+    let n = 1 + rng.below(if big { 400 } else { 40 }) as usize;
+    let mut s = String::new();
+    if rng.chance(1, 20) {
+        s.push_str("#!/usr/bin/gluon \n");
+    }
+    for _ in 0..n {
+        let k = rng.below(100);
+        let t: &str = if k < 6 {
+            *rng.pick(SOUP_NON_ASCII_SAFE)
+        } else if bad && k < 9 {
+            *rng.pick(SOUP_NON_ASCII_BAD)
+        } else {
+            *rng.pick(SOUP)
+        };
+        if s.len() + t.len() + 16 > MAX_LEN {
+            break;
+        }
+        s.push_str(t);
+        match rng.below(10) {
+            0 => {}
+            1 | 2 => {
+                s.push('\n');
+                for _ in 0..rng.below(12) {
+                    s.push(' ');
+                }
+            }
+            3 => s.push_str("  "),
+            _ => s.push(' '),
+        }
+    }
+    s
+}
+
+struct Seed {
+    name: String,
+    text: String,
+    /// token spans (byte offsets) from the real tokenizer
+    toks: Vec<(usize, usize)>,
+}
+
+fn collect_seeds() -> Vec<Seed> {
+    let repo = std::env::var("GLUON_REPO").unwrap_or_else(|_| "/repo".into());
+    let mut files = Vec::new();
+    for dir in ["std", "tests/pass", "examples", "std/effect", "std/json", "std/http", "std/io", "std/regex", "std/path"] {
+        if let Ok(rd) = std::fs::read_dir(format!("{}/{}", repo, dir)) {
+            for e in rd.flatten() {
+                let p = e.path();
+                if p.extension().map_or(false, |x| x == "glu") {
+                    files.push(p);
+                }
+            }
+        }
+    }
+    files.sort();
+    let mut seeds = Vec::new();
+    for p in files {
+        let Ok(text) = std::fs::read_to_string(&p) else { continue };
+        // windows of at most 4 KiB cut at line starts
+        let mut start = 0;
+        let mut w = 0;
+        while start < text.len() && w < 3 {
+            let mut end = (start + MAX_LEN - 64).min(text.len());
+            while !text.is_char_boundary(end) {
+                end -= 1;
+            }
+            if end < text.len() {
+                if let Some(nl) = text[start..end].rfind('\n') {
+                    end = start + nl + 1;
+                }
+            }
+            let chunk = text[start..end].to_string();
+            let toks = catch_unwind(AssertUnwindSafe(|| gluon_parser::verif::tokens(&chunk)))
+                .map(|(items, _)| {
+                    items
+                        .into_iter()
+                        .filter_map(|i| i.ok())
+                        .map(|(a, b, _)| (a as usize - 1, b as usize - 1))
+                        .filter(|(a, b)| a < b)
+                        .collect::<Vec<_>>()
+                })
+                .unwrap_or_default();
+            if toks.len() >= 4 {
+                seeds.push(Seed { name: format!("{}#{}", p.strip_prefix(&repo).unwrap_or(&p).display(), w), text: chunk, toks });
+            }
+            start = end;
+            w += 1;
+        }
+    }
+    seeds
+}
+
+fn mutate(rng: &mut Rng, seed: &Seed) -> (String, &'static str) {
+    let t = &seed.text;
+    let toks = &seed.toks;
+    let nt = toks.len();
+    let mut s = t.clone();
+    let mut kind = "mut:none";
+    let rounds = 1 + rng.below(3);
+    for _ in 0..rounds {
+        // re-tokenising after each edit is not needed: edits are applied to the ORIGINAL spans of a
+        // fresh copy only in the first round; later rounds work on lines.
+        match rng.below(7) {
+            0 if s.len() == t.len() => {
+                let (a, b) = toks[rng.below(nt as u64) as usize];
+                s = format!("{}{}", &t[..a], &t[b..]);
+                kind = "mut:delete";
+            }
+            1 if s.len() == t.len() => {
+                let (a, b) = toks[rng.below(nt as u64) as usize];
+                s = format!("{}{} {}", &t[..b], &t[a..b], &t[b..]);
+                kind = "mut:duplicate";
+            }
+            2 if s.len() == t.len() => {
+                let i = rng.below(nt as u64 - 1) as usize;
+                let j = (i + 1 + rng.below(3) as usize).min(nt - 1);
+                let ((a, b), (c, d)) = (toks[i], toks[j]);
+                if b <= c {
+                    s = format!("{}{}{}{}{}", &t[..a], &t[c..d], &t[b..c], &t[a..b], &t[d..]);
+                    kind = "mut:swap";
+                }
+            }
+            3 if s.len() == t.len() => {
+                let (_, b) = toks[rng.below(nt as u64) as usize];
+                s = t[..b].to_string();
+                kind = "mut:truncate";
+            }
+            4 if s.len() == t.len() => {
+                // truncate in the middle of a token
+                let (a, b) = toks[rng.below(nt as u64) as usize];
+                let mut e = a + (rng.below((b - a) as u64) as usize);
+                while !t.is_char_boundary(e) {
+                    e -= 1;
+                }
+                s = t[..e].to_string();
+                kind = "mut:truncate-mid";
+            }
+            5 => {
+                // re-indent some lines
+                let lines: Vec<&str> = s.split('\n').collect();
+                let mut out = String::new();
+                for (i, l) in lines.iter().enumerate() {
+                    if i > 0 {
+                        out.push('\n');
+                    }
+                    if rng.chance(1, 6) {
+                        let body = l.trim_start();
+                        for _ in 0..rng.below(10) {
+                            out.push(' ');
+                        }
+                        out.push_str(body);
+                    } else {
+                        out.push_str(l);
+                    }
+                }
+                s = out;
+                if kind == "mut:none" {
+                    kind = "mut:reindent";
+                }
+            }
+            _ => {
+                // insert a soup token at a token boundary
+                let (_, b) = toks[rng.below(nt as u64) as usize];
+                if b <= s.len() && s.is_char_boundary(b) {
+                    let ins = *rng.pick(SOUP);
+                    s = format!("{} {} {}", &s[..b], ins, &s[b..]);
+                    if kind == "mut:none" {
+                        kind = "mut:insert";
+                    }
+                }
+            }
+        }
+    }
+    (truncate_to(&s, MAX_LEN).to_string(), kind)
+}
+
+/// Which part of the lexer an input exercises: used for the histogram and for classifying panics.
+fn non_ascii_class(s: &str) -> &'static str {
+    if s.is_ascii() { "ascii" } else { "non-ascii" }
+}
+
+// ------------------------------------------------------------------------------------------
+// shrinking of a panicking lexer input (in-process: lexer panics unwind)
+// ------------------------------------------------------------------------------------------
+
+fn lex_panics(s: &str) -> Option<String> {
+    match catch_unwind(AssertUnwindSafe(|| gluon_parser::verif::tokens(s))) {
+        Ok(_) => None,
+        Err(_) => {
+            let (loc, msg) = take_panic();
+            Some(lexer_panic_site(&loc, &msg))
+        }
+    }
+}
+
+fn shrink_panic(s: &str, site: &str) -> String {
+    let mut cur: Vec<char> = s.chars().collect();
+    loop {
+        let before = cur.len();
+        let mut chunk = (cur.len() / 2).max(1);
+        loop {
+            let mut i = 0;
+            while i < cur.len() {
+                let end = (i + chunk).min(cur.len());
+                let cand: String = cur[..i].iter().chain(cur[end..].iter()).collect();
+                if lex_panics(&cand).as_deref() == Some(site) {
+                    cur = cand.chars().collect();
+                } else {
+                    i = end;
+                }
+            }
+            if chunk == 1 {
+                break;
+            }
+            chunk = (chunk / 2).max(1);
+        }
+        // a full schedule without progress: done (small chunks can unblock larger ones, e.g. `""`)
+        if cur.len() == before {
+            break;
+        }
+    }
+    // second pass with pairs/triples at the end
+    for chunk in [2usize, 3, 4] {
+        let mut i = 0;
+        while i + chunk <= cur.len() {
+            let cand: String = cur[..i].iter().chain(cur[i + chunk..].iter()).collect();
+            if lex_panics(&cand).as_deref() == Some(site) {
+                cur = cand.chars().collect();
+            } else {
+                i += 1;
+            }
+        }
+    }
+    cur.into_iter().collect()
+}
+
+/// Key of a lexer panic, from the minimal input.
+fn panic_key(min: &str, site: &str) -> String {
+    let has_non_ascii = !min.is_ascii();
+    let class = if !has_non_ascii {
+        format!("ascii:{}", hex(min.as_bytes()))
+    } else if min.starts_with('\'') {
+        "non-ascii-in-char-literal".to_string()
+    } else if min.starts_with('"') && min.contains('\\') {
+        "non-ascii-escape-in-string".to_string()
+    } else if min.chars().all(|c| !c.is_ascii() || c.is_ascii_whitespace()) {
+        "non-ascii-outside-string".to_string()
+    } else {
+        format!("non-ascii:{}:{}", site, hex(truncate_to(min, 16).as_bytes()))
+    };
+    format!("lexer-panic:{}", class)
+}
+
+// ------------------------------------------------------------------------------------------
+
+fn replay(path: &str) {
+    install_hook();
+    let v: serde_json::Value = serde_json::from_str(&std::fs::read_to_string(path).expect("replay file")).expect("json");
+    let case = &v["case"];
+    let dir = std::env::temp_dir();
+    if let Some(kind) = case["nest_kind"].as_str() {
+        let depth = case["depth"].as_u64().unwrap_or(100) as usize;
+        println!("nesting {} depth {}: {:?}", kind, depth, run_nest(kind, &[depth], &dir));
+        return;
+    }
+    let src = String::from_utf8(unhex(case["hex"].as_str().expect("case.hex"))).expect("utf8");
+    println!("input: {:?}", src);
+    let mut deaths = Vec::new();
+    let cases = [(0usize, true, src.as_str())];
+    let r = run_isolated("lex", "replay", &cases, &dir, &mut deaths);
+    println!("lexer: {}", r.get(&0).cloned().unwrap_or_default());
+    let r = run_isolated("mon", "replay", &cases, &dir, &mut deaths);
+    println!("monitor: {}", r.get(&0).cloned().unwrap_or_default().replace('\x1f', " ;; "));
+    println!("expected: {}", v["expected"].as_str().unwrap_or("?"));
+}
+
+fn main() {
+    let argv: Vec<String> = std::env::args().collect();
+    if argv.len() > 2 && argv[1] == "child" {
+        child_main(&argv[2..]);
+        return;
+    }
+    let args = Args::parse();
+    if let Some(p) = &args.replay {
+        replay(p);
+        return;
+    }
+    install_hook();
+    let t_start = Instant::now();
+    let thorough = args.thorough();
+    let mut rng = Rng::new(args.seed);
+    let mut hist = Hist::default();
+
+    // ---- inputs
+    let mut inputs: Vec<(String, String)> = Vec::new(); // (family, text)
+    // corpus: one input per file under corpus/C09 (run first)
+    let corpus_dir = std::path::Path::new(env!("CARGO_MANIFEST_DIR")).join("../corpus/C09");
+    let mut corpus_files: Vec<_> = std::fs::read_dir(&corpus_dir).map(|rd| rd.flatten().map(|e| e.path()).collect()).unwrap_or_default();
+    corpus_files.sort();
+    for p in corpus_files {
+        if let Ok(t) = std::fs::read_to_string(&p) {
+            inputs.push(("corpus".into(), truncate_to(&t, MAX_LEN).to_string()));
+        }
+    }
+    let n_corpus = inputs.len();
+    let scale = |quick: usize, thorough_n: usize| -> usize {
+        args.extra.get("scale").and_then(|s| s.parse::<f64>().ok()).map(|f| (quick as f64 * f) as usize).unwrap_or(if thorough { thorough_n } else { quick })
+    };
+    let n_bytes = scale(1500, 30000);
+    let n_soup = scale(2000, 40000);
+    let n_mut = scale(2200, 45000);
+    for _ in 0..n_bytes {
+        let (s, fam) = gen_bytes(&mut rng);
+        inputs.push((fam.into(), s));
+    }
+    for i in 0..n_soup {
+        let bad = i % 5 == 4;
+        inputs.push((if bad { "soup:non-ascii".into() } else { "soup".into() }, gen_soup(&mut rng, bad)));
+    }
+    let seeds = collect_seeds();
+    hist.addn("seeds", seeds.len() as u64);
+    if !seeds.is_empty() {
+        // every seed unchanged once, then truncation at every token for a few seeds (all in thorough)
+        for s in &seeds {
+            inputs.push(("seed".into(), s.text.clone()));
+        }
+        let n_trunc_seeds = if thorough { 12 } else { 2 };
+        for k in 0..n_trunc_seeds {
+            let s = &seeds[(rng.below(seeds.len() as u64) as usize + k) % seeds.len()];
+            for (_, b) in s.toks.iter().take(if thorough { 1200 } else { 250 }) {
+                inputs.push(("mut:truncate-every".into(), s.text[..*b].to_string()));
+            }
+        }
+        for _ in 0..n_mut {
+            let s = rng.pick(&seeds);
+            let (m, kind) = mutate(&mut rng, s);
+            inputs.push((kind.into(), m));
+        }
+    }
+    let n = inputs.len();
+    let mut distinct = BTreeSet::new();
+    let mut nontrivial = 0u64;
+    for (fam, s) in &inputs {
+        hist.add(&format!("family:{}", fam));
+        hist.add(&format!("chars:{}", non_ascii_class(s)));
+        hist.add(&format!(
+            "len:{}",
+            match s.len() {
+                0..=15 => "0-15",
+                16..=127 => "16-127",
+                128..=1023 => "128-1023",
+                _ => "1024-4096",
+            }
+        ));
+        if s.len() >= 2 && distinct.insert(fnv(s.as_bytes())) {
+            nontrivial += 1;
+        }
+    }
+
+    // ---- tie: lexer
+    let mut deaths = Vec::new();
+    let cases: Vec<(usize, bool, &str)> = inputs.iter().enumerate().map(|(i, (_, s))| (i, false, s.as_str())).collect();
+    let lex = run_isolated_par("lex", &cases, &args.out, &mut deaths, 4);
+    let t_lex = t_start.elapsed().as_secs_f64();
+    let mut model_in = args.file("model_in.txt");
+    let mut impl_out = args.file("impl_out.txt");
+    let mut cases_f = args.file("cases.txt");
+    let fx = args.extra.get("fx").map(|s| s.as_str()).unwrap_or("0");
+    let mut lexer_panics: BTreeMap<String, serde_json::Value> = BTreeMap::new();
+    let mut n_panic = 0u64;
+    let mut unescape_panics: BTreeMap<String, serde_json::Value> = BTreeMap::new();
+    for (i, (fam, s)) in inputs.iter().enumerate() {
+        let r = lex.get(&i).cloned().unwrap_or_else(|| "missing".into());
+        writeln!(model_in, "fx={};in={}", fx, hex(s.as_bytes())).unwrap();
+        writeln!(impl_out, "{}", r).unwrap();
+        writeln!(cases_f, "{} {}", fam, hex(s.as_bytes())).unwrap();
+        if r.contains(":panic:") {
+            hist.add("unescape:panic");
+            for w in r.split(' ').filter(|w| w.starts_with("U:") && w.contains(":panic:")) {
+                let site = w.splitn(3, ':').nth(2).unwrap_or("?").to_string();
+                unescape_panics.entry(site.clone()).or_insert_with(|| {
+                    // the smallest input: the string token itself is in the line, report the whole input
+                    serde_json::json!({"key": format!("unescape-{}", site), "site": site, "hex": hex(s.as_bytes()), "text": one_line(s, 200), "family": fam, "index": i})
+                });
+            }
+        }
+        let class = if r.starts_with("ok") {
+            if r.contains("## ##") { "lex:ok" } else { "lex:ok-with-errors" }
+        } else if r.starts_with("panic") {
+            "lex:panic"
+        } else {
+            "lex:died"
+        };
+        hist.add(class);
+        if let Some(site) = r.strip_prefix("panic:") {
+            n_panic += 1;
+            // shrink the first few per (site, coarse class); all are counted
+            if lexer_panics.len() < 40 {
+                let coarse = format!("{}:{}:{}", site, s.starts_with('\''), s.contains("\"\\"));
+                if !lexer_panics.contains_key(&coarse) || lexer_panics.len() < 12 {
+                    let min = shrink_panic(s, site);
+                    let key = panic_key(&min, site);
+                    lexer_panics.entry(key.clone()).or_insert_with(|| {
+                        serde_json::json!({"key": key, "site": site, "minimal": min, "minimal_hex": hex(min.as_bytes()), "hex": hex(s.as_bytes()), "family": fam, "index": i})
+                    });
+                    lexer_panics.entry(coarse).or_insert(serde_json::Value::Null);
+                }
+            }
+        } else if !r.starts_with("ok") {
+            let key = format!("lexer-{}", r);
+            lexer_panics.entry(key.clone()).or_insert_with(|| serde_json::json!({"key": key, "site": r, "minimal": s, "minimal_hex": hex(s.as_bytes()), "hex": hex(s.as_bytes()), "family": fam, "index": i}));
+        }
+    }
+    model_in.flush().unwrap();
+    impl_out.flush().unwrap();
+    cases_f.flush().unwrap();
+    let lexer_panics: Vec<serde_json::Value> = lexer_panics.into_values().filter(|v| !v.is_null()).collect();
+
+    // ---- monitor (a subset in quick: all corpus + every k-th input; prelude on for every 25th of those)
+    let mon_stride = args.extra.get("mon_stride").and_then(|s| s.parse().ok()).unwrap_or(if thorough { 2 } else { 2 });
+    let prelude_stride = if thorough { 10 } else { 12 };
+    let shards: usize = args.extra.get("shards").and_then(|s| s.parse().ok()).unwrap_or(6);
+    let mon_cases: Vec<(usize, bool, &str)> = inputs
+        .iter()
+        .enumerate()
+        .filter(|(i, _)| *i < n_corpus || i % mon_stride == 0)
+        .enumerate()
+        .map(|(k, (i, (_, s)))| (i, i < n_corpus || k % prelude_stride == 0, s.as_str()))
+        .collect();
+    let mon = run_isolated_par("mon", &mon_cases, &args.out, &mut deaths, shards);
+    let t_mon = t_start.elapsed().as_secs_f64() - t_lex;
+    let mut mon_viol: BTreeMap<String, serde_json::Value> = BTreeMap::new();
+    let mut mon_counts: BTreeMap<String, u64> = BTreeMap::new();
+    let mut reported_errors = 0u64;
+    for (i, with_prelude, s) in &mon_cases {
+        let r = mon.get(i).cloned().unwrap_or_else(|| "missing".into());
+        let mut parts = r.splitn(2, '\t');
+        let summary = parts.next().unwrap_or("");
+        let viols = parts.next().unwrap_or("");
+        if summary.starts_with("abort") || summary.starts_with("hang") || summary.starts_with("stack-overflow") || summary == "missing" {
+            let key = format!("frontend-{}", summary);
+            *mon_counts.entry(key.clone()).or_insert(0) += 1;
+            hist.add("mon:died");
+            mon_viol.entry(key.clone()).or_insert_with(|| serde_json::json!({"key": key, "detail": "the child running parse_partial_expr/typecheck_str died or hung on this input", "hex": hex(s.as_bytes()), "text": one_line(s, 300), "prelude": with_prelude, "index": i}));
+            continue;
+        }
+        for w in summary.split(' ') {
+            if let Some(nn) = w.strip_prefix("errors:") {
+                reported_errors += nn.parse::<u64>().unwrap_or(0);
+            } else {
+                hist.add(&format!("mon:{}", w));
+            }
+        }
+        for v in viols.split('\x1f').filter(|v| !v.is_empty()) {
+            let (key, detail) = v.split_once('|').unwrap_or((v, ""));
+            *mon_counts.entry(key.to_string()).or_insert(0) += 1;
+            let better = match mon_viol.get(key) {
+                None => true,
+                Some(old) => old["hex"].as_str().map_or(0, |h| h.len()) > s.len() * 2,
+            };
+            if better {
+                mon_viol.insert(key.to_string(), serde_json::json!({"key": key, "detail": detail, "hex": hex(s.as_bytes()), "text": one_line(s, 300), "prelude": with_prelude, "index": i}));
+            }
+        }
+    }
+
+    // ---- nesting sweep (one child per kind, in parallel)
+    let mut nest = serde_json::Map::new();
+    let mut nest_viol = Vec::new();
+    let depths: Vec<usize> = if thorough { vec![10, 50, 100, 200, 300, 500, 750, 1000, 1500, 2000] } else { vec![10, 100, 200, 500, 1000, 2000] };
+    let nest_results: Vec<(&str, Vec<(usize, String)>, usize)> = std::thread::scope(|sc| {
+        let hs: Vec<_> = NEST_KINDS
+            .iter()
+            .map(|kind| {
+                let depths = depths.clone();
+                let dir = args.out.clone();
+                sc.spawn(move || {
+                    let r = run_nest(kind, &depths, &dir);
+                    // bisect the largest working depth between the last success and the first failure
+                    let mut largest_ok = r.iter().filter(|(_, x)| x.starts_with("done")).map(|(d, _)| *d).max().unwrap_or(0);
+                    if let Some((bad, _)) = r.iter().find(|(_, x)| !x.starts_with("done")) {
+                        let (mut lo, mut hi) = (r.iter().filter(|(d, x)| d < bad && x.starts_with("done")).map(|(d, _)| *d).max().unwrap_or(0), *bad);
+                        while thorough && hi - lo > 1 && hi - lo > lo / 10 {
+                            let mid = (lo + hi) / 2;
+                            let ok = run_nest(kind, &[mid], &dir).first().map_or(false, |(_, x)| x.starts_with("done"));
+                            if ok { lo = mid } else { hi = mid }
+                        }
+                        largest_ok = lo;
+                    }
+                    (*kind, r, largest_ok)
+                })
+            })
+            .collect();
+        hs.into_iter().map(|h| h.join().expect("nest thread")).collect()
+    });
+    for (kind, r, largest_ok) in nest_results {
+        let first_bad = r.iter().find(|(_, x)| !x.starts_with("done")).cloned();
+        for (d, x) in &r {
+            hist.add(if x.starts_with("done ok") { "nest:ok" } else if x.starts_with("done") { "nest:rejected" } else { "nest:crash" });
+            if !x.starts_with("done") && *d <= 200 {
+                nest_viol.push(serde_json::json!({"key": format!("nesting-crash:{}:depth<=200", kind), "nest_kind": kind, "depth": d, "result": x}));
+            }
+        }
+        let log: Vec<String> = r.iter().map(|(d, x)| format!("{}:{}", d, one_line(x, 40))).collect();
+        nest.insert(
+            kind.to_string(),
+            serde_json::json!({"largest_depth_ok": largest_ok, "first_failure": first_bad.map(|(d, r)| format!("{}: {}", d, r)), "log": log}),
+        );
+    }
+    let t_nest = t_start.elapsed().as_secs_f64() - t_lex - t_mon;
+
+    gvh::out::write_json(
+        &args.out.join("monitor.json"),
+        &serde_json::json!({
+            "lexer_panics": lexer_panics,
+            "unescape_panics": unescape_panics.values().collect::<Vec<_>>(),
+            "monitor_violations": mon_viol.values().collect::<Vec<_>>(),
+            "monitor_counts": mon_counts,
+            "nesting": nest,
+            "nesting_violations": nest_viol,
+            "deaths": deaths,
+        }),
+    );
+    gvh::out::write_json(
+        &args.out.join("stats.json"),
+        &serde_json::json!({
+            "evaluations": n as u64 + mon_cases.len() as u64,
+            "lexer_cases": n,
+            "lexer_panics": n_panic,
+            "monitor_cases": mon_cases.len(),
+            "monitor_with_prelude": mon_cases.iter().filter(|c| c.1).count(),
+            "reported_errors_checked": reported_errors,
+            "distinct_nontrivial": nontrivial,
+            "rule": "inputs of at least 2 bytes, distinct by content (FNV-1a of the bytes); families: corpus, random bytes forced to UTF-8 (lossy / weighted chars / ASCII), token soups with random indentation, mutants (delete/duplicate/swap/insert tokens, re-indent, truncate at and inside tokens) of windows of std/*.glu, tests/pass/*.glu, examples/*.glu",
+            "hist": hist.to_json(),
+            "wall": {"lexer_s": t_lex, "monitor_s": t_mon, "nesting_s": t_nest},
+        }),
+    );
 }
